@@ -94,6 +94,17 @@ Qed.
 Lemma nth_nth_error {A} (l : list A) p d : p < length l -> nth_error l p = Some (nth p l d).
 Proof. intros H. apply nth_error_nth'. exact H. Qed.
 
+Lemma nth_error_ext {A} (a b : list A) : (forall i, nth_error a i = nth_error b i) -> a = b.
+Proof.
+  revert b; induction a as [|x a IH]; intros [|y b] H; auto.
+  - specialize (H 0). discriminate.
+  - specialize (H 0). discriminate.
+  - pose proof (H 0) as H0. simpl in H0. injection H0 as ->. f_equal. apply IH. intros i. apply (H (S i)).
+Qed.
+
+Lemma firstn_skipn_length {A} (l : list A) k : k <= length l -> length l = k + length (skipn k l).
+Proof. intros H. rewrite skipn_length. lia. Qed.
+
 (* ---------- upd ---------- *)
 Lemma upd_same {A} (f : nat -> A) n x : upd f n x n = x.
 Proof. unfold upd. rewrite Nat.eqb_refl. reflexivity. Qed.
